@@ -127,6 +127,16 @@ func (h *treeHarness) genTags(root *tv) []tagSpec {
 			if p.chance(1, 8) {
 				ts.cls = tagBadClasses[p.intn(len(tagBadClasses))]
 			}
+			if target != nil && target.kind == "P" && target.child.kind == "s" {
+				// a pointer to a string: what it points at is settable (reflect.Indirect), any tag applies
+				if taken[ts.pointer()] {
+					continue
+				}
+				ts.cls = tagClasses[p.intn(len(tagClasses))]
+				if p.chance(1, 10) {
+					ts.cls = tagBadClasses[p.intn(len(tagBadClasses))]
+				}
+			}
 			if target != nil && target.kind == "N" {
 				ts.cls = tagClasses[p.intn(len(tagClasses))]
 			}
